@@ -101,6 +101,15 @@ func c01(c *Check) {
 
 	c.Rule("C01/no-failure-reported-as-success", "on the failure edge of one error no function returns another error value that is provably nil at that point (a wrapped stale `err` instead of the error just tested): a failed step is never reported as success", 1)
 	noFailureAsSuccess(c, "C01/no-failure-reported-as-success", fnsInPackages(c, "/x/xibc/keeper", "/x/xibc/core/packet/keeper"))
+	c.Rule("C01/receipts-and-acks-survive-genesis", "the receipts and acknowledgements families are read whole by their exporters (reachable from ExportGenesis, over the family's own prefix) and written back by their importer: a restart does not forget that a packet was delivered", 2)
+	{
+		er, ir := genesisReach(c)
+		familiesRoundTrip(c, "C01/receipts-and-acks-survive-genesis", "C01/receipts-and-acks-survive-genesis", er, ir, func(f string) bool {
+			return strings.HasPrefix(f, "receipts/") || strings.HasPrefix(f, "acks/")
+		})
+	}
+	c.Rule("C01/replay-guards-read-the-store", "the packet keeper holds only wiring (store key, codec, other keepers): the receipt and acknowledgement lookups answer from the committed store, not from memory of this process, which is empty after a restart", 3)
+	keeperFieldsRule(c, "C01/replay-guards-read-the-store", func(p string) bool { return strings.HasSuffix(p, "/x/xibc/core/packet/keeper") })
 	c.Rule("C01/key-shape", "host.PacketReceiptKey is receipts/<src>/<dst>/sequences/<seq %d> (all three parameters, in order) and Get/Has/Set address it with their own (src,dst,seq) parameters", 4)
 	key := c.F("x/xibc/core/host.PacketReceiptKey")
 	sh := c.P.ShapeOfFunc(key)
